@@ -246,28 +246,23 @@ def walk_trees(
             yield entry1, entry2
         else:
             # Check if this entry matches any of our filters
-            for filter_path in paths:
-                if path == filter_path:
-                    # Exact match
-                    yield entry1, entry2
-                    break
-                elif path is not None and path.startswith(filter_path + b"/"):
-                    # This entry is under a filter directory
-                    yield entry1, entry2
-                    break
-                elif (
-                    path is not None
-                    and filter_path.startswith(path + b"/")
-                    and (is_tree1 or is_tree2)
-                ):
-                    # This is a parent directory of a filter path. Only the
-                    # side that is a directory can contain the filter path; a
-                    # file of the same name on the other side does not match.
-                    yield (
-                        entry1 if is_tree1 else None,
-                        entry2 if is_tree2 else None,
-                    )
-                    break
+            assert path is not None
+            if any(
+                path == filter_path or path.startswith(filter_path + b"/")
+                for filter_path in paths
+            ):
+                # Exact match, or this entry is under a filter directory
+                yield entry1, entry2
+            elif (is_tree1 or is_tree2) and any(
+                filter_path.startswith(path + b"/") for filter_path in paths
+            ):
+                # This is only a parent directory of a filter path. Only the
+                # side that is a directory can contain the filter path; a
+                # file of the same name on the other side does not match.
+                yield (
+                    entry1 if is_tree1 else None,
+                    entry2 if is_tree2 else None,
+                )
 
 
 def _skip_tree(entry: TreeEntry | None, include_trees: bool) -> TreeEntry | None:
